@@ -312,6 +312,7 @@ def part_a(chk, cases, meta):
                 chk.dist('TV config ' + lab)
                 chk.dist('payload ' + plab)
         # instrument(): every mode / read_only value, both classes
+        partial_seen = []
         ro_values = [False, True, 0, 1, '', 'yes', None, [], [0]]
         mode_values = ['development', 'production', 'Development', 'dev', '', None, 1]
         for is_async in (False, True):
@@ -321,8 +322,11 @@ def part_a(chk, cases, meta):
                     admin = {'auth': False, 'mode': mode, 'read_only': ro, 'namespace': ns}
                     d = admin_drv.AdminServerDriver(MIN_CFG, 'async' if is_async else 'sync', False, admin)
                     flags = d.app_path_patched()
-                    if any(flags) != all(flags):
-                        chk.broken_obligation('instrument() installed only some of the four wrappers: %r' % (flags,))
+                    if any(flags) != all(flags) and not partial_seen:
+                        partial_seen.append(flags)
+                        chk.broken_obligation('instrument() installed only some of the four wrappers '
+                                              '[_trigger_event, basic_enter_room, basic_leave_room, emit]: %r '
+                                              '(mode %r)' % (flags, mode))
                     events = d.admin_handlers()
                     term = '(IV %s %s %s %s)' % (cbool(is_async), c_acfg(False, ro, mode, ns),
                                                  clist([cstr(e) for e in events]), cbool(any(flags)))
@@ -579,7 +583,11 @@ def tr_case(cfg, ops, mode, coro, admin, mixed):
         srv.c_dump(dplain), srv.c_dump(dinstr))
     n_admin_pkts = sum(1 for e, _ in instr_all for x in e if x[0] == 'Out' and x[1] in A)
     bg = [x for e, _ in instr_all for x in e if x[0] == 'BgRaised']
-    return term, {'admin_packets': n_admin_pkts, 'plain': plain, 'instr': instr, 'A': A, 'bg': bg}
+    n_eff = sum(len(e) for e, _ in instr_all)
+    n_plain = sum(len(e) for e, _ in plain)
+    # a run-away instrumented trace is judged here instead of being printed for Coq
+    runaway = n_eff > 40 * (n_plain + 25)
+    return term, {'admin_packets': n_admin_pkts, 'plain': plain, 'instr': instr, 'A': A, 'bg': bg, 'runaway': runaway}
 
 
 EDGE_HISTORIES = [
@@ -612,6 +620,15 @@ def part_d(chk, cases, meta):
         except Exception as e:
             import traceback
             chk.broken_obligation('driver error in TR history %d (%s): %r %s' % (i, mode, e, traceback.format_exc()[-600:]))
+            continue
+        if info['runaway']:
+            m = {'part': 'TR', 'tr': (ops, info['plain'], info['instr'], info['A'], amode)}
+            chk.count(1, None)
+            chk.dist('TR run-away instrumented trace (judged in Python)')
+            chk.violation(tr_signature(m) + '-runaway',
+                          'the instrumented run produced more than 40 times the effects of the plain run and differs '
+                          'from it for the application (judged in Python, too large to print for Coq)',
+                          {'part': 'TR', 'py': repr((cfg, mixed, mode, coro, amode, ro))})
             continue
         cases.append(term)
         meta.append({'part': 'TR', 'replay': {'part': 'TR', 'py': repr((cfg, mixed, mode, coro, amode, ro))},
